@@ -32,7 +32,8 @@ def is_buffer_too_small(res, case=None):
         per = [a + b for a, b in zip(s1, s2)]
     else:
         per = [max(a, b) for a, b in zip(s1, s2)] if s2 else s1
-    return case["knobs"]["buffer_size"] < 2 * (max(per) if per else 16) + 8
+    comments = 20 * (case["input"].get("comments") or 0)  # '#' lines in front of the first FASTA record
+    return case["knobs"]["buffer_size"] < 2 * (max(per) if per else 16) + 8 + comments
 
 
 def outputs_of(case, res):
